@@ -35,9 +35,32 @@ OK == <<"ok", "">>
 (* the vector a line talks about, rebuilt from the line *)
 VecOf(e) ==
   [shape |-> e.shape, kinds |-> e.kinds, modes |-> e.modes,
-   leaves |-> IF e.shape = "path" THEN <<[method |-> e.methods[1], anc |-> 1..Len(e.modes)]>>
+   leaves |-> IF e.shape = "memo" THEN <<[method |-> e.methods[1], anc |-> {}]>>
+              ELSE IF e.shape = "path" THEN <<[method |-> e.methods[1], anc |-> 1..Len(e.modes)]>>
               ELSE <<[method |-> e.methods[1], anc |-> {1, 2}], [method |-> e.methods[2], anc |-> {1}]>>]
 FlatKey(x) == [shape |-> x.shape, kinds |-> x.kinds, modes |-> x.modes, methods |-> x.methods]
+
+(* shape "memo": numbers are logged (pre = allowance before the transaction, n, a, b as in RevertTree.tla), flags / view = what *)
+(* the three calls returned, final = allowance record after the block, moved = coins moved to the receiver / burnt              *)
+MemoJudge(e) ==
+  LET v == VecOf(e)
+      s == MemoSurvives(v)
+      x == Expect(v)
+      ap == e.kinds[1] = "approve"
+      flag1 == IF e.modes[1] = "ok" THEN 1 ELSE 0
+      view  == IF ap THEN (IF s THEN e.n ELSE e.pre) ELSE (IF s THEN e.pre - e.a ELSE e.pre)
+      flag3 == IF ap THEN (IF s THEN 1 ELSE 0) ELSE 1
+      final == IF ap THEN (IF s THEN e.n - e.a ELSE e.pre) ELSE view - e.b
+      moved == IF ap THEN (IF s THEN e.a ELSE 0) ELSE (IF s THEN e.a ELSE 0) + e.b
+  IN IF e.status # 1 \/ Len(e.flags) # 3 \/ e.flags[1] # flag1 \/ e.flags[2] # 1 THEN <<"Vacuity", "memo-calls-did-not-run-as-generated">>
+     ELSE IF e.view # view THEN (IF s THEN <<"Vacuity", "memo-control-view">> ELSE <<"Effect", "allowance-change-of-reverted-frame-visible-to-later-call">>)
+     ELSE IF e.flags[3] # flag3 THEN (IF s \/ flag3 = 1 THEN <<"Vacuity", "memo-spend-failed">> ELSE <<"Effect", "spend-accepted-on-allowance-of-reverted-frame">>)
+     ELSE IF e.moved # moved THEN (IF s THEN <<"Vacuity", "memo-control-amount">> ELSE <<"Effect", "coins-moved-by-reverted-frame-or-on-its-allowance">>)
+     ELSE IF e.final # final THEN (IF s THEN <<"Vacuity", "memo-control-allowance">> ELSE <<"Effect", "allowance-record-keeps-change-of-reverted-frame">>)
+     ELSE IF e.changed # x.changed THEN <<"Stores", "memo-store-diff-differs">>
+     ELSE IF Len(e.logs) > Len(x.logs) THEN <<"Logs", "log-of-failed-frame-kept">>
+     ELSE IF e.logs # x.logs THEN <<"Logs", "log-order-or-kind">>
+     ELSE OK
 
 Judge(e) ==
   LET v == VecOf(e)
@@ -46,6 +69,7 @@ Judge(e) ==
       logs == SelectSeq(e.logs, LAMBDA k : k # "WithdrawReward")
   IN IF Strict /\ (e.id # l \/ l > Len(Vecs) \/ FlatKey(Vecs[e.id]) # FlatKey(e)) THEN <<"Binding", "line-is-not-the-next-vector">>
      ELSE IF Strict /\ v \notin VectorSet THEN <<"Binding", "vector-outside-the-models-input-space">>
+     ELSE IF e.shape = "memo" THEN MemoJudge(e)
      ELSE IF e.frames # e.modes \/ Len(e.leafExit) # n \/ \E j \in 1..Len(e.leafExit) : e.leafExit[j] # "ok"
        THEN <<"Vacuity", "frames-or-leaves-did-not-run-as-generated">>
      ELSE IF e.status # x.status THEN <<"Status", "receipt-status-differs-from-top-frame-outcome">>
@@ -62,6 +86,7 @@ Judge(e) ==
 
 Class(e) ==
   LET v == VecOf(e) x == Expect(v) IN
+  IF e.shape = "memo" THEN "memo." \o e.kinds[1] \o (IF MemoSurvives(v) THEN ".control" ELSE ".in-reverted-frame") ELSE
   e.shape \o (IF \A i \in DOMAIN e.modes : e.modes[i] = "ok" THEN ".control"
               ELSE IF x.changed THEN ".partly-kept" ELSE IF e.modes[1] = "ok" THEN ".inner-frame-failed" ELSE ".top-frame-failed")
 
